@@ -220,6 +220,9 @@ void OPNMIDIplay::resetMIDI()
 
     m_midiChannels.clear();
     m_midiChannels.resize(16, MIDIchannel());
+    // The channels of the further MIDI devices are gone: forget the devices and which track plays on which
+    m_midiDevices.clear();
+    m_currentMidiDevice.clear();
 
     resetMIDIDefaults();
 
